@@ -205,7 +205,7 @@ Definition body_status (l : list status) : status :=
 Definition some_status (l : list status) : status :=
   if existsb (status_eqb PASS) l then PASS else if existsb (status_eqb FAIL) l then FAIL else SKIP.
 
-Definition is_filter_part (p : query_part) : bool := match p with QFilter _ _ => true | _ => false end.
+Definition is_filter_part (p : query_part) : bool := match p with QFilter _ _ | QMapKeyFilter _ _ _ => true | _ => false end.
 
 (* one `or` line: alternatives left to right, nothing after the first PASS; a body: every line *)
 Fixpoint or_line {T} (f : T -> sres status) (l : list T) (failed : bool) : sres status :=
@@ -227,6 +227,7 @@ Record sev := mkSev {
   sv_rule : string -> sres status }.                          (* a rule by name *)
 
 Definition not_miss (x : sval) : bool := match x with SMiss => false | _ => true end.
+Definition is_lit (x : sval) : bool := match x with SV true _ => true | _ => false end.
 
 Section Bodies.
 Variable r : sev.
@@ -310,7 +311,8 @@ Fixpoint resolve (env : senv) (name : string) {struct env} : sres (list sval) :=
           | Some (LValue lit) => if lit_ok lit then SOk [SV true lit] else SOut
           | Some (LAccess aq) =>
               res <~ sv_query r env (aq_query aq) ;;
-              SOk (if aq_all aq then res else filter not_miss res)
+              (* `some`: the values that are there; over values written as literals it is not covered *)
+              if aq_all aq then SOk res else if existsb is_lit res then SOut else SOk (filter not_miss res)
           | _ => SOut
           end
       | _ => SOut
